@@ -134,49 +134,7 @@ func checkC03(p *Prog, r *Report) {
 		}
 	}
 	// controlled success (deferred nomination)
-	if _, sps := selPaths(p, r, "controlledSelector.HandleSuccessResponse"); sps != nil {
-		n := 0
-		for _, sp := range sps {
-			reach := sp.Vals["txn"] == "true" && sp.Vals["symmetric"] == "true" && sp.Vals["pair"] == "!=nil"
-			if sp.Has("state=Succeeded") && !reach {
-				r.Fail("controlled success: validation gate", sp.EndPos, "pair marked Succeeded without transaction match and symmetry: "+sp.String())
-			}
-			if !reach {
-				if sp.Has("select") {
-					r.Fail("controlled success: select path", sp.EndPos, "selects without transaction match / symmetry / known pair")
-				}
-				continue
-			}
-			// pinned table of the deferred path (documented behaviour; the
-			// nomination-value blindness is C20's known finding)
-			want := false
-			if sp.Vals["deferred"] == "true" {
-				switch {
-				case sp.Vals["selected"] == "==nil":
-					want = true
-				case sp.Vals["samePair"] == "EQ":
-					want = false
-				case sp.Vals["needsPrio"] == "false":
-					want = true
-				case sp.Vals["prio"] != "":
-					want = !maskHas(sp.Vals["prio"], "GT")
-				}
-			}
-			got := sp.Has("select")
-			if got {
-				n++
-				st := evIndex(sp, "state=Succeeded")
-				if st < 0 || st > evIndex(sp, "select") {
-					r.Fail("controlled success: validated before selected", sp.EndPos, "selection precedes the Succeeded mark")
-				}
-			}
-			r.Check(got == want, "controlled success row "+rowKey(sp, "deferred", "selected", "samePair", "needsPrio", "prio"), sp.EndPos, "select="+boolStr(want),
-				"the code selects="+boolStr(got)+" here; documented: only a deferred nomination selects, never a lower-priority pair when priorities must be checked")
-		}
-		if n == 0 {
-			r.Fail("controlled success: select path", "selection.go", "a deferred nomination is never applied")
-		}
-	}
+	checkControlledDeferredTable(p, r)
 	// controlled request
 	_, reqPaths := selPaths(p, r, "controlledSelector.HandleBindingRequest")
 	if reqPaths != nil {
@@ -375,6 +333,9 @@ func checkC03(p *Prog, r *Report) {
 	// ---- R3.8 answers of an earlier session select nothing ------------------------------------------------
 	r.Rule("R3.8", "The table of outstanding transactions is emptied on every path of the Restart task and of the Failed transition (shared with C01 R1.11): a late success response to a nomination sent before the restart finds no transaction, so it cannot mark a pair of the new session Succeeded and select it.", 2)
 	checkPendingWipe(p, r)
+	// ---- R3.9 a lite agent keeps its lite selector ------------------------------------------------------------
+	r.Rule("R3.9", "The agent's selector is installed only by setSelector, whose table wraps the role's selector in the lite selector whenever the agent is lite (shared with C05 R5.4): a lite agent that switches role after a conflict still never originates Binding requests.", 2)
+	checkSetSelectorTable(p, r)
 }
 
 // checkSwitchPredicate compares shouldSwitchSelectedPair with the specified
@@ -528,4 +489,52 @@ func (p *Prog) leafDefs(f *Func, o types.Object, depth int, seen map[types.Objec
 		out = append(out, d)
 	}
 	return out
+}
+
+// checkControlledDeferredTable: the decision table of the controlled agent's success-response
+// handler (shared by C03 R3.1 and C20 R20.7).
+func checkControlledDeferredTable(p *Prog, r *Report) {
+	if _, sps := selPaths(p, r, "controlledSelector.HandleSuccessResponse"); sps != nil {
+		n := 0
+		for _, sp := range sps {
+			reach := sp.Vals["txn"] == "true" && sp.Vals["symmetric"] == "true" && sp.Vals["pair"] == "!=nil"
+			if sp.Has("state=Succeeded") && !reach {
+				r.Fail("controlled success: validation gate", sp.EndPos, "pair marked Succeeded without transaction match and symmetry: "+sp.String())
+			}
+			if !reach {
+				if sp.Has("select") {
+					r.Fail("controlled success: select path", sp.EndPos, "selects without transaction match / symmetry / known pair")
+				}
+				continue
+			}
+			// pinned table of the deferred path (documented behaviour; the
+			// nomination-value blindness is C20's known finding)
+			want := false
+			if sp.Vals["deferred"] == "true" {
+				switch {
+				case sp.Vals["selected"] == "==nil":
+					want = true
+				case sp.Vals["samePair"] == "EQ":
+					want = false
+				case sp.Vals["needsPrio"] == "false":
+					want = true
+				case sp.Vals["prio"] != "":
+					want = !maskHas(sp.Vals["prio"], "GT")
+				}
+			}
+			got := sp.Has("select")
+			if got {
+				n++
+				st := evIndex(sp, "state=Succeeded")
+				if st < 0 || st > evIndex(sp, "select") {
+					r.Fail("controlled success: validated before selected", sp.EndPos, "selection precedes the Succeeded mark")
+				}
+			}
+			r.Check(got == want, "controlled success row "+rowKey(sp, "deferred", "selected", "samePair", "needsPrio", "prio"), sp.EndPos, "select="+boolStr(want),
+				"the code selects="+boolStr(got)+" here; documented: only a deferred nomination selects, never a lower-priority pair when priorities must be checked")
+		}
+		if n == 0 {
+			r.Fail("controlled success: select path", "selection.go", "a deferred nomination is never applied")
+		}
+	}
 }
